@@ -35,7 +35,13 @@ func ScopeRaceDetector() {
 	if err != nil {
 		return
 	}
-	env := append(os.Environ(), scopedEnv+"="+filepath.Join(dir, "race"),
+	var env []string
+	for _, e := range os.Environ() {
+		if !strings.HasPrefix(e, "GORACE=") { // the runtime takes the first GORACE it finds
+			env = append(env, e)
+		}
+	}
+	env = append(env, scopedEnv+"="+filepath.Join(dir, "race"),
 		"GORACE=halt_on_error=0 exitcode=0 log_path="+filepath.Join(dir, "race"))
 	_ = syscall.Exec(exe, os.Args, env)
 }
